@@ -23,7 +23,8 @@ inductive TokVal where
   | none
   | text (s : List Char)
   | int (n : Nat)
-  | flt (literal : List Char)    -- a float literal is kept as its decimal text `ddd.ddd`
+  | flt (literal : List Char) (bits : UInt64)
+      -- a float literal: its decimal text `ddd.ddd` (ASCII digits) and the binary64 value it denotes (IEEE bits)
 deriving DecidableEq, Repr, Inhabited
 
 structure Token where
